@@ -64,6 +64,19 @@ class Sim(object):
         self.companion = None
         self.nproc = 0
         self.nhang = 0
+        self.cover = False
+        self._sweep()
+
+    def _sweep(self):
+        """Remove scratch directories left behind by simulated processes whose worker died."""
+        try:
+            for name in os.listdir(self.base):
+                if name.startswith('p') and '-' in name:
+                    pid = name[1:].split('-')[0]
+                    if pid.isdigit() and not os.path.exists('/proc/%s' % pid):
+                        shutil.rmtree(os.path.join(self.base, name), ignore_errors=True)
+        except OSError:
+            pass
 
     # ------------------------------------------------------------ local fork
     def _run_local(self, spec):
@@ -99,7 +112,7 @@ class Sim(object):
                 finally:
                     os._exit(status)
         os.close(w)
-        deadline = time.monotonic() + spec.get('alarm', 20) + 15
+        deadline = time.monotonic() + spec.get('alarm', 60) + 15
         chunks = []
         killed = False
         while True:
@@ -150,6 +163,8 @@ class Sim(object):
         return self.companion
 
     def run(self, spec, hs=0):
+        if self.cover and 'cover' not in spec:
+            spec = dict(spec, cover=True)
         if hs == 0 or not self.want_companion:
             return self._run_local(spec)
         c = self._companion()
